@@ -641,6 +641,8 @@ func c01Cases(r *core.Run, prop string) []XZWCase {
 				c.Pre = &pre
 				add(XZWCase{Cfg: c, Shape: far})
 				add(XZWCase{Cfg: c, Shape: []Seg{{K: "T", Seed: 42, N: 7000}}})
+				c.PreUsed = true
+				add(XZWCase{Cfg: c, Shape: far})
 			}
 		}
 	}
@@ -655,6 +657,25 @@ func c01Cases(r *core.Run, prop string) []XZWCase {
 	} {
 		for _, c := range []XZCfg{{}, {DictCap: 65536}, {DictCap: 1 << 20, Matcher: 1}, {Props: true, LC: 0, LP: 0, PB: 0, DictCap: 65536}, {Props: true, LC: 1, LP: 2, PB: 4, DictCap: 1 << 17, BlockSize: 100000}} {
 			add(XZWCase{Cfg: c, Shape: sh})
+		}
+	}
+	// (m) one Write call that carries more than 2 MiB + 64 KiB: a chunk is cut by the compressed-size
+	// limit (incompressible start) and by the 2 MiB limit (long run) inside the same call, with
+	// look-ahead data left over at each cut
+	for _, sh := range [][]Seg{
+		{{K: "R", Seed: 61, N: 100000}, {K: "Z", N: 1<<21 + 300000}},
+		{{K: "Z", N: 1<<21 + 70000}, {K: "R", Seed: 62, N: 100000}, {K: "A", B: 'k', N: 1<<21 + 5}},
+		{{K: "T", Seed: 63, N: 70000}, {K: "A", B: 0xff, N: 1<<21 + 4097}, {K: "T", Seed: 63, N: 3000}},
+	} {
+		add(XZWCase{Cfg: XZCfg{}, Shape: sh})
+		add(XZWCase{Cfg: XZCfg{DictCap: 65536, BufSize: 273, Check: 1}, Shape: sh})
+	}
+	// (n) blocks longer than the encoder's ring buffer (DictCap+BufSize+1), several of them: each
+	// block gets a new LZMA2 writer after the previous one took in more than a full ring
+	for _, c := range []XZCfg{{DictCap: 65536, BlockSize: 80000}, {DictCap: 65536, BufSize: 273, BlockSize: 66000, Check: 1}, {DictCap: 4096, BlockSize: 9000, Check: 10}, {DictCap: 65536, BlockSize: 70000, Matcher: 1}} {
+		add(XZWCase{Cfg: c, Shape: []Seg{{K: "T", Seed: 64, N: 250000}}})
+		if c.Matcher == 0 {
+			add(XZWCase{Cfg: c, Shape: []Seg{{K: "P", Seed: 64, N: 100000}, {K: "R", Seed: 64, N: 90000}, {K: "T", Seed: 65, N: 60000}}})
 		}
 	}
 	// (i) raw-chunk residency boundary: DictCap+BufSize just below / at / above the size of one full
